@@ -44,6 +44,7 @@ class Unit(object):
 # Worker side
 # ----------------------------------------------------------------------
 _SEEN = set()
+_LINES = set()
 _MOD = {}
 
 
@@ -61,7 +62,17 @@ def _init_worker():
                 _SEEN.add("%s:%s" % (fn[len(REPO) + 1:], code.co_qualname))
             return mon.DISABLE
         mon.register_callback(tool, mon.events.PY_START, on_start)
-        mon.set_events(tool, mon.events.PY_START)
+        events = mon.events.PY_START
+        if os.environ.get("VERIF_LINECOV"):
+            # audit aid (tools/linecov.py): which lines of rig ran at all
+            def on_line(code, line):
+                fn = code.co_filename
+                if fn.startswith(prefix):
+                    _LINES.add((fn[len(REPO) + 1:], line))
+                return mon.DISABLE
+            mon.register_callback(tool, mon.events.LINE, on_line)
+            events |= mon.events.LINE
+        mon.set_events(tool, events)
     except Exception:
         pass
 
@@ -113,6 +124,8 @@ def _run_task(task):
     res["samples"] = eng.samples[:3]
     res["witnessed"] = sorted(eng.witnessed)
     res["functions"] = sorted(_SEEN)
+    if os.environ.get("VERIF_LINECOV"):
+        res["lines"] = sorted(_LINES)
     res["wall"] = time.time() - t0
     return res
 
@@ -242,6 +255,8 @@ def main(argv=None):
         for r in results[i]:
             st.add(r["stats"])
             functions.update(r["functions"])
+            if r.get("lines"):
+                _LINES.update(tuple(x) for x in r["lines"])
             wit.update(r["witnessed"])
             if r["status"] == "stopped":
                 stopped = True
@@ -350,6 +365,11 @@ def main(argv=None):
             ev["coverage"].update(extra())
         except Exception as e:       # pragma: no cover
             problems.append("extra_evidence failed: %r" % (e,))
+    if os.environ.get("VERIF_LINECOV"):
+        d = os.environ["VERIF_LINECOV"]
+        os.makedirs(d, exist_ok=True)
+        with open(os.path.join(d, "%s.%s.json" % (prop, tier)), "w") as f:
+            json.dump(sorted(_LINES), f)
     if not a.no_evidence and a.unit is None:
         os.makedirs(os.path.join(VERIF, "evidence"), exist_ok=True)
         with open(os.path.join(VERIF, "evidence", prop + ".json"), "w") as f:
